@@ -25,7 +25,7 @@ LEVEL = "exploration"
 RUNS = {"quick": 40000, "thorough": 1000000}
 WALL = {"quick": 240, "thorough": 1500}
 PARTITIONS = [{"name": "default", "env": {}}]
-FAULT_KINDS = ["reorder", "batch_split", "empty_batch", "nan_entry", "merge_partials", "rescale", "invalidate",
+FAULT_KINDS = ["keep_missed_off", "reorder", "batch_split", "empty_batch", "nan_entry", "merge_partials", "rescale", "invalidate",
                "copy", "duplicate_values"]
 RULE = ("one run = 1-4 one-dimensional accumulators over consecutive bins fed in-range values (<= 30 entries, "
         "weights none/int/dyadic/float) by construction, fill and fill_n in seeded chunkings, combined with +, += and "
@@ -62,7 +62,9 @@ def generate(rng, seed, part):
         for _ in range(3):
             entries[rng.randrange(n)] = list(entries[rng.randrange(n)])
     cfg = {"axis": axis, "weights": wkind, "dtype": build.pick_dtype(rng, "float" if wkind == "const" else wkind),
-           "vtype": rng.choice(["f64", "f64", "f32", "f16"])}
+           "vtype": rng.choice(["f64", "f64", "f32", "f16"]),
+           # tracking of missed values on or off: all values lie in the bins, the statistics must not care
+           "keep_missed": rng.random() < 0.7}
     if cfg["vtype"] != "f64":
         # values representable in the narrow float type: they may be handed over as float32/float16 arrays
         conv = np.float32 if cfg["vtype"] == "f32" else np.float16
@@ -220,7 +222,9 @@ def execute(plan, ctx):
     entries = plan["entries"]
     wkind = cfg["weights"]
     nodes = {}
-    ctx.state(cfg["axis"]["kind"], wkind, cfg["dtype"])
+    ctx.state(cfg["axis"]["kind"], wkind, cfg["dtype"], cfg.get("keep_missed", True))
+    if not cfg.get("keep_missed", True):
+        ctx.fault("keep_missed_off")
     vals_seen = set()
 
     def pair(i):
@@ -239,6 +243,7 @@ def execute(plan, ctx):
             dtype = np.dtype(cfg["dtype"]) if cfg["dtype"] else None
             if op["idx"] is None:
                 kw = {"dtype": dtype} if dtype is not None else {}
+                kw["keep_missed"] = cfg.get("keep_missed", True)
                 ok, h = attempt(Histogram1D, build.make_binning(cfg["axis"]), **kw)
                 bag = []
             else:
@@ -248,6 +253,7 @@ def execute(plan, ctx):
                     data = data.astype(np.float32 if cfg["vtype"] == "f32" else np.float16)
                     ctx.probe("narrow_float_values")
                 kw = {"dtype": dtype} if dtype is not None else {}
+                kw["keep_missed"] = cfg.get("keep_missed", True)
                 if wkind != "none":
                     kw["weights"] = warr([entries[i][1] for i in idx])
                 ok, h = attempt(f_h1, data, build.make_binning(cfg["axis"]), **kw)
